@@ -215,6 +215,67 @@ def handle (op : String) (args : List String) : Except String String :=
   | "configpaths" => do
     let plan ← run1 (pList pContentOut) args
     pure (showBytesList (Spec.configPaths plan))
+  -- C03: digests and sizes of real packages against the declarative spec
+  | "c03deb" => do
+    let (md5sums, inst, ms) ← run1 (do let a ← pBytes; let b ← pOptBytes; let c ← pList pSMember; pure (a, b, c)) args
+    pure (verdict (Spec.checkDeb ms md5sums inst))
+  | "c03ipk" => do
+    let (inst, ms) ← run1 (do let b ← pOptBytes; let c ← pList pSMember; pure (b, c)) args
+    pure (verdict (Spec.checkIpk ms inst))
+  | "c03apk" => do
+    let (dh, seg, sz, ms) ← run1 (do
+      let a ← pOptBytes; let b ← pBytes; let c ← pOptBytes; let d ← pList pSMember; pure (a, b, c, d)) args
+    pure (verdict (Spec.checkApk ms dh seg sz))
+  | "c03arch" => do
+    let (mtree, sz, pk, ms) ← run1 (do
+      let a ← pBytes; let b ← pOptBytes; let c ← pSMember; let d ← pList pSMember; pure (a, b, c, d)) args
+    pure (verdict (Spec.checkArch ms pk mtree sz))
+  | "c03mtree" => do
+    let (pk, ms) ← run1 (do let c ← pSMember; let d ← pList pSMember; pure (c, d)) args
+    pure (hex (Spec.expMtree ms pk))
+  | "c03md5sums" => do
+    let ms ← run1 (pList pSMember) args
+    pure (hex (Spec.expMd5sums ms))
+  | "c03rpm" => do
+    let r ← run1 pRpmFacts args
+    pure (verdict (Spec.checkRpm r))
+  -- C04: container structure of real packages against the declarative spec
+  | "c04names" => do
+    let (dotted, ms) ← run1 (do
+      let d ← pBool; let l ← pList (do let n ← pBytes; let k ← pNat; pure (n, k.toUInt8)); pure (d, l)) args
+    pure (verdict (Spec.checkNames dotted ms))
+  | "c04deb" => do
+    let (comp, sig, names, db) ← run1 (do
+      let a ← pBytes; let b ← pOptBytes; let c ← pList pBytes; let d ← pBytes; pure (a, b, c, d)) args
+    pure (verdict (Spec.checkDebAr comp sig names db))
+  | "c04ipk" => do
+    let (names, db) ← run1 (do let c ← pList pBytes; let d ← pBytes; pure (c, d)) args
+    pure (verdict (Spec.checkIpkOuter names db))
+  | "c04arch" => do
+    let (hs, names) ← run1 (do let a ← pBool; let c ← pList pBytes; pure (a, c)) args
+    pure (verdict (Spec.checkArchOrder names hs))
+  | "c04apk" => do
+    let (signed, trailing, segs) ← run1 (do let a ← pBool; let t ← pNat; let c ← pList pSegFacts; pure (a, t, c)) args
+    pure (verdict (Spec.checkApkSegments signed segs trailing))
+  | "c04rpm" => do
+    let (hdr, cpio) ← run1 (do
+      let h ← pList (do let n ← pBytes; let g ← pBool; pure (n, g)); let c ← pList pBytes; pure (h, c)) args
+    pure (verdict (Spec.checkRpmOrder hdr cpio))
+  -- model of bufio.Writer and of apk.writeTgz (correspondence with the standard library / real segments)
+  | "bufio" => do
+    let (cap, ops) ← run1 (do
+      let c ← pNat
+      let ops ← pList (do
+        match (← tok) with
+        | "w" => do let b ← pBytes; pure (some b)
+        | "f" => pure none
+        | t => throw s!"bad bufio op {t}")
+      pure (c, ops)) args
+    let w := ops.foldl (fun (w : Arc.BufW) o => match o with | some b => w.write cap b | none => w.flush) {}
+    pure s!"{hex w.out} {w.buf.length}"
+  | "tgzstream" => do
+    let (full, pad, ws) ← run1 (do let f ← pBool; let p ← pNat; let w ← pList pBytes; pure (f, p, w)) args
+    pure (hex (Arc.tgzStream Arc.reviewedBufCap Arc.reviewedTgzOps (if full then .full else .cut) ws pad))
   | _ => .error s!"unknown op {op}"
 
 partial def loop (hin : IO.FS.Stream) (hout : IO.FS.Stream) : IO Unit := do
